@@ -550,6 +550,11 @@ func Match(d *m.Design, a *m.Attr, sent, got value.V, wire bool, path string) st
 		for _, f := range res.Type.Fields {
 			sv, _ := sent.Get(f.Name)
 			gv, _ := got.Get(f.Name)
+			if (sv.IsNil() || emptyColl(sv)) && f.Required && d.Underlying(f.Attr).IsPrimitive() && IsZero(gv) {
+				// a required primitive is a non-pointer Go field: "unset" (e.g. an
+				// attribute outside the rendered view) is its zero value
+				continue
+			}
 			if msg := Match(d, f.Attr, sv, gv, wire, path+"."+f.Name); msg != "" {
 				return msg
 			}
@@ -600,4 +605,142 @@ func Match(d *m.Design, a *m.Attr, sent, got value.V, wire bool, path string) st
 		return fmt.Sprintf("%s: want %s got %s", orRoot(path), sent.Canon(), got.Canon())
 	}
 	return ""
+}
+
+// ResultViews returns the view names of the result type an attribute refers
+// to (nil when the attribute is not a result type with views).
+func ResultViews(d *m.Design, a *m.Attr) []string {
+	if a == nil || a.Type == nil || a.Type.Kind != m.User {
+		return nil
+	}
+	ut := d.TypeByName(a.Type.User)
+	if ut == nil || !ut.Result {
+		return nil
+	}
+	var out []string
+	for _, v := range ut.Views {
+		out = append(out, v.Name)
+	}
+	return out
+}
+
+// Project returns the part of a result value that the given view exposes:
+// exactly the attributes the view lists, nested result types rendered with
+// the view named for that attribute in the view (else the attribute's own
+// view, else "default"), applied through arrays and maps.
+func Project(d *m.Design, a *m.Attr, v value.V, view string) value.V {
+	if a == nil || a.Type == nil || v.IsNil() {
+		return v
+	}
+	switch a.Type.Kind {
+	case m.Array:
+		if v.K != "array" {
+			return v
+		}
+		out := value.V{K: "array", A: make([]value.V, len(v.A))}
+		for i, e := range v.A {
+			out.A[i] = Project(d, a.Type.Elem, e, view)
+		}
+		return out
+	case m.Map:
+		if v.K != "map" {
+			return v
+		}
+		out := value.V{K: "map", A: make([]value.V, len(v.A))}
+		for i := 0; i+1 < len(v.A); i += 2 {
+			out.A[i] = v.A[i]
+			out.A[i+1] = Project(d, a.Type.Val, v.A[i+1], view)
+		}
+		return out
+	case m.Object:
+		if v.K != "object" {
+			return v
+		}
+		out := value.V{K: "object"}
+		for _, f := range v.O {
+			mf := d.FieldByName(a, f.N)
+			if mf == nil {
+				out.O = append(out.O, f)
+				continue
+			}
+			out.O = append(out.O, value.Field{N: f.N, V: Project(d, mf.Attr, f.V, nestedView(mf.Attr, ""))})
+		}
+		return out
+	case m.User:
+		ut := d.TypeByName(a.Type.User)
+		if ut == nil {
+			return v
+		}
+		if !ut.Result || len(ut.Views) == 0 {
+			return Project(d, ut.Attr, v, "default")
+		}
+		if view == "" {
+			view = "default"
+		}
+		var vw *m.View
+		for _, c := range ut.Views {
+			if c.Name == view {
+				vw = c
+			}
+		}
+		if vw == nil || v.K != "object" {
+			return v
+		}
+		out := value.V{K: "object"}
+		for _, vf := range vw.Fields {
+			fv, ok := v.Get(vf.Name)
+			if !ok {
+				continue
+			}
+			mf := d.FieldByName(ut.Attr, vf.Name)
+			if mf == nil {
+				continue
+			}
+			out.O = append(out.O, value.Field{N: vf.Name, V: Project(d, mf.Attr, fv, nestedView(mf.Attr, vf.View))})
+		}
+		return out
+	}
+	return v
+}
+
+func nestedView(a *m.Attr, viewInView string) string {
+	if viewInView != "" {
+		return viewInView
+	}
+	if a.View != "" {
+		return a.View
+	}
+	return "default"
+}
+
+// SelectResponse returns the success response the design selects for a
+// result value: the first tagged response whose tag attribute has the tag
+// value, else the untagged one; nil when the endpoint declares no response.
+func SelectResponse(d *m.Design, meth *m.Method, result value.V) *m.Response {
+	h := meth.HTTP
+	if h == nil || len(h.Responses) == 0 {
+		return nil
+	}
+	var untagged *m.Response
+	for _, r := range h.Responses {
+		if r.TagName == "" {
+			if untagged == nil {
+				untagged = r
+			}
+			continue
+		}
+		if fv, ok := result.Get(r.TagName); ok && fv.K == "string" && fv.S == r.TagValue {
+			return r
+		}
+	}
+	return untagged
+}
+
+// DefaultStatus is the status goa documents for an endpoint without an
+// explicit response: 200, or 204 when the method has no result.
+func DefaultStatus(meth *m.Method) int {
+	if meth.Result == nil {
+		return 204
+	}
+	return 200
 }
